@@ -305,7 +305,7 @@ def judge (op obs : String) : String :=
       verdict ((List.range cnt).foldl (fun acc i => orElse acc (fun _ =>
         let f := (c0 + i) % 2 ^ W; let v := (v0 + i * vs) % 2 ^ N
         let f' := hexSlice ab (i * dw) dw
-        orElse (writeSpec f f' F N v) (fun _ => if hexSlice bb (i * dn) dn ≠ v then some "get" else none))) none)
+        (orElse (writeSpec f f' F N v) (fun _ => if hexSlice bb (i * dn) dn ≠ v then some "get" else none)).map (· ++ s!" i={i}"))) none)
     | _, _ => fail "shape"
   | ["sop", W, F, N, o, argS, field, other], [bfS, otS, getS, auxS] =>
     match nats [W, F, N], nats [getS, auxS] with
@@ -339,7 +339,7 @@ def judge (op obs : String) : String :=
       verdict ((List.range cnt).foldl (fun acc i => orElse acc (fun _ =>
         let M := overlay M0 ptr cb (c0 + i); let v := (v0 + i * vs) % 2 ^ N
         let M' := memSlice ab (i * 2 * len) len
-        orElse (writeSpec M M' lo N v) (fun _ => if hexSlice bb (i * dn) dn ≠ v then some "get" else none))) none)
+        (orElse (writeSpec M M' lo N v) (fun _ => if hexSlice bb (i * dn) dn ≠ v then some "get" else none)).map (· ++ s!" i={i}"))) none)
     | _, _ => fail "shape"
   | ["xdop", _, _, _, _, _, _, _, _], _ => "ok"      -- outside the property's quantifier: correspondence only
   | ["dop", W, N, len, ptr, first, o, argS, buf], [bufS, getS, auxS] =>
